@@ -12,6 +12,7 @@ import (
 	"crypto"
 	"crypto/elliptic"
 	"crypto/mlkem"
+	crand "crypto/rand"
 	"crypto/sha256"
 	"errors"
 	"hash"
@@ -66,7 +67,8 @@ func c29SymInt(n int) (*big.Int, []byte, bool) {
 }
 
 // Modular exponentiation as an uninterpreted function of (base, exponent, modulus), each given as
-// 24 big-endian bytes (the harness keeps all three below 2^192).  Inert unless c29On.
+// big-endian bytes of its (concrete) word count; the result has the word count of the modulus.  Inert
+// unless c29On.
 //
 //verif:stub (*math/big.Int).Exp
 func c29StubExp(z *big.Int, x, y, m *big.Int) *big.Int {
@@ -77,7 +79,29 @@ func c29StubExp(z *big.Int, x, y, m *big.Int) *big.Int {
 }
 
 func c29ExpUF(x, y, m *big.Int) []byte {
-	return verifrt.UFBytes("c29modexp", (m.BitLen()+7)/8, x.FillBytes(make([]byte, 24)), y.FillBytes(make([]byte, 24)), m.FillBytes(make([]byte, 24)))
+	if len(m.Bits()) > 2 {
+		// Large moduli occur in Verif_C29_GexClient only, where the value of g^x mod p is irrelevant
+		// (the run ends once GEX_INIT is sent): restricted to 2^56 <= r < 2^64 to avoid one path per
+		// possible number of leading zero bytes in the mpint encoder.
+		out := verifrt.UFBytes("c29modexpL", 8, c29BigBytes(x), c29BigBytes(y), c29BigBytes(m))
+		verifrt.Assume(out[0] != 0)
+		return out
+	}
+	return verifrt.UFBytes("c29modexp", 8*len(m.Bits()), c29BigBytes(x), c29BigBytes(y), c29BigBytes(m))
+}
+
+// c29BigBytes: |x| as big-endian bytes, one 8-byte group per word (word count is concrete per path).
+func c29BigBytes(x *big.Int) []byte { return x.FillBytes(make([]byte, 8*len(x.Bits()))) }
+
+// crypto/rand.Int contract: a value in [0, max).  The C29 harnesses call it with max > 2^63 only, where
+// every 63-bit value is a possible result (larger results are not explored).
+//
+//verif:stub crypto/rand.Int
+func c29StubRandInt(r io.Reader, max *big.Int) (*big.Int, error) {
+	if !verifrt.Symbolic() || !c29On {
+		return crand.Int(r, max)
+	}
+	return new(big.Int).SetUint64(verifrt.U64() >> 1), nil
 }
 
 // c29DHBounds: dhGroup.diffieHellman over the group (g = 2, p) for EVERY integer theirPublic with
@@ -303,6 +327,9 @@ func c29StubHashNew(h crypto.Hash) hash.Hash {
 	return &c29Hash{}
 }
 
+// c29XMisuse records that X25519 was handed a wrong-length input (symbolic runs only).
+var c29XMisuse bool
+
 func c29X(scalar, point []byte) []byte {
 	if verifrt.Symbolic() {
 		return verifrt.UFBytes("c29x25519", 32, scalar, point)
@@ -324,6 +351,7 @@ func c29StubX25519(scalar, point []byte) ([]byte, error) {
 		return curve25519.X25519(scalar, point)
 	}
 	if len(scalar) != 32 || len(point) != 32 {
+		c29XMisuse = true // the SSH code is expected to check the peer value's length itself, before use
 		return nil, errors.New("c29: bad X25519 input length")
 	}
 	out := c29X(scalar, point)
@@ -385,6 +413,7 @@ func Verif_C29_X25519Client() {
 	var err error
 	pn := verifrt.Panics(func() { res, err = (&curve25519sha256{}).Client(conn, rnd, &mg.m) })
 	verifrt.Assert(!pn, "Client does not panic")
+	verifrt.Assert(!c29XMisuse, "X25519 is never handed a wrong-length value (length checked before use)")
 	verifrt.Assert(len(rnd.got) == 32, "client draws a 32-byte private scalar")
 	priv := rnd.got
 	qc := c29X(priv, curve25519.Basepoint)
@@ -435,6 +464,7 @@ func Verif_C29_X25519Server() {
 	var err error
 	pn := verifrt.Panics(func() { res, err = (&curve25519sha256{}).Server(conn, rnd, &mg.m, key, c29KeyAlgo) })
 	verifrt.Assert(!pn, "Server does not panic")
+	verifrt.Assert(!c29XMisuse, "X25519 is never handed a wrong-length value (length checked before use)")
 	if len(qc) != 32 {
 		verifrt.Assert(err != nil && res == nil && len(conn.out) == 0, "peer public value of wrong length is rejected, nothing sent")
 		verifrt.Reach("bad-length")
@@ -576,7 +606,7 @@ func Verif_C29_MlkemServer() {
 		res, err = (&mlkem768WithCurve25519sha256{}).Server(conn, rnd, &mg.m, key, c29KeyAlgo)
 	})
 	verifrt.Assert(!pn, "Server does not panic")
-	verifrt.Assert(!c29MlkemMisuse, "ML-KEM is never handed a wrong-length input")
+	verifrt.Assert(!c29MlkemMisuse && !c29XMisuse, "ML-KEM and X25519 are never handed a wrong-length input")
 	if n != 1216 {
 		verifrt.Assert(err != nil && res == nil && len(conn.out) == 0 && len(rnd.got) == 0, "wrong-length C_INIT is rejected before use")
 		verifrt.Reach("bad-length")
@@ -625,7 +655,7 @@ func Verif_C29_MlkemClient() {
 	var err error
 	pn := verifrt.Panics(func() { res, err = (&mlkem768WithCurve25519sha256{}).Client(conn, rnd, &mg.m) })
 	verifrt.Assert(!pn, "Client does not panic")
-	verifrt.Assert(!c29MlkemMisuse, "ML-KEM is never handed a wrong-length input")
+	verifrt.Assert(!c29MlkemMisuse && !c29XMisuse, "ML-KEM and X25519 are never handed a wrong-length input")
 	verifrt.Assert(len(rnd.got) == 32+64, "client draws a 32-byte X25519 scalar and a 64-byte ML-KEM seed")
 	if !verifrt.Symbolic() {
 		if n != 1120 {
@@ -702,6 +732,101 @@ func Verif_C29_GexServer() {
 		}
 	}
 	verifrt.Reach("group-sent")
+}
+
+// c29BitLen: bit length of a big-endian byte string.
+func c29BitLen(b []byte) int {
+	for i, x := range b {
+		if x != 0 {
+			n := 0
+			for x != 0 {
+				x >>= 1
+				n++
+			}
+			return 8*(len(b)-i-1) + n
+		}
+	}
+	return 0
+}
+
+// c29Dec: b - 1 for a non-zero big-endian byte string (borrow chain).
+func c29Dec(b []byte) []byte {
+	out := make([]byte, len(b))
+	borrow := uint16(1)
+	for i := len(b) - 1; i >= 0; i-- {
+		d := uint16(b[i]) - borrow
+		out[i] = byte(d)
+		borrow = (d >> 8) & 1
+	}
+	return out
+}
+
+// Verif_C29_GexClient: dhGEXSHA.Client against an arbitrary SSH_MSG_KEX_DH_GEX_GROUP(p, g); the mock
+// server closes the connection afterwards, so the observable is whether SSH_MSG_KEX_DH_GEX_INIT is sent.
+// p: byte length forked over 255, 256, 257, 1024, 1025 and 9; the two leading and the eight trailing
+// bytes are symbolic (the middle bytes are the constant 0xA5), i.e. bit lengths 0..2040, 2041..2056,
+// 8177..8200 and the low word (borrow of p-1) are covered.  g: either any 0..2-byte two's complement value
+// (negative, 0, 1, small) or p with its low eight bytes replaced by fresh symbolic bytes (values around
+// p-1).  Stubs: rand.Int = symbolic 63-bit value, Exp = uninterpreted.
+// Decided: the client first sends GEX_REQUEST(2048, 2048, 8192); it sends GEX_INIT exactly when
+// 2048 <= bits(p) <= 8192 and 1 < g < p-1 (byte-level reference), otherwise it aborts without sending.
+func Verif_C29_GexClient() { c29GexClient([]int{256, 255, 257, 9}) }
+
+// Verif_C29_GexClientMax: the upper bound: p of 1024 and 1025 bytes (8177..8200 bits).
+func Verif_C29_GexClientMax() { c29GexClient([]int{1024, 1025}) }
+
+func c29GexClient(plens []int) {
+	c29On = true
+	mg := c29NewMagics()
+	plen := plens[verifrt.Choose(0, len(plens)-1)]
+	pb := make([]byte, plen)
+	for i := range pb {
+		if i < 2 || i >= plen-8 {
+			pb[i] = verifrt.U8()
+		} else {
+			pb[i] = 0xA5
+		}
+	}
+	var gcontent, gmag []byte
+	gneg := false
+	if verifrt.Choose(0, 1) == 0 {
+		gcontent = verifrt.Bytes(verifrt.Choose(0, 2))
+		gmag = gcontent
+		if len(gcontent) > 0 && gcontent[0] >= 0x80 {
+			gneg = true
+		}
+	} else {
+		gmag = append(append([]byte(nil), pb[:plen-8]...), verifrt.Bytes(8)...)
+		gcontent = append([]byte{0}, gmag...)
+	}
+	pkt := c29Cat([]byte{31}, c29Str(append([]byte{0}, pb...)), c29Str(gcontent))
+	conn := &c29Conn{in: [][]byte{pkt}}
+	var res *kexResult
+	var err error
+	pn := verifrt.Panics(func() { res, err = (&dhGEXSHA{hashFunc: crypto.SHA256}).Client(conn, &c29Rand{}, &mg.m) })
+	verifrt.Assert(!pn, "GEX Client does not panic")
+	verifrt.Assert(err != nil && res == nil, "run ends with an error (group refused or peer closed)")
+	verifrt.Assert(len(conn.out) >= 1 && c29Same(conn.out[0], c29Cat([]byte{34}, c24put32(2048), c24put32(2048), c24put32(8192))), "client requests min 2048, preferred 2048, max 8192")
+	// 2048 <= bits(p) <= 8192  <=>  2^2047 <= p < 2^8192 (byte-level comparison, no bit counting)
+	pow := func(bit int) []byte {
+		b := make([]byte, 1026)
+		b[1025-bit/8] = 1 << uint(bit%8)
+		return b
+	}
+	pw := c29Pad(pb, 1026)
+	valid := false
+	if !c29Less(pw, pow(2047)) && c29Less(pw, pow(8192)) && !gneg {
+		w := plen + 1
+		g := c29Pad(gmag, w)
+		valid = c29Less(c29Pad([]byte{1}, w), g) && c29Less(g, c29Pad(c29Dec(pb), w))
+	}
+	if valid {
+		verifrt.Assert(len(conn.out) == 2 && len(conn.out[1]) > 5 && conn.out[1][0] == 32, "acceptable group: SSH_MSG_KEX_DH_GEX_INIT is sent")
+		verifrt.Reach("init-sent")
+	} else {
+		verifrt.Assert(len(conn.out) == 1, "group with bits(p) outside [2048, 8192] or g outside (1, p-1) is refused before GEX_INIT")
+		verifrt.Reach("group-refused")
+	}
 }
 
 // ---------------------------------------------------------------------------------------------
